@@ -180,7 +180,20 @@ func VerifC16_SharedSlice() {
 // into any other call.
 func VerifC16_ErrorOnly() {
 	var trace []int
-	denied := verifErr("denied")
+	// the error a middleware sets / a target returns may be of ANY Go error type: a pointer (errors.New, generated
+	// exceptions), a struct VALUE (context.DeadlineExceeded is one: what a timeout middleware passes on from
+	// ctx.Err()), or an integer / string based type at its zero value (syscall.Errno-like)
+	var denied error
+	switch verifChoice(3) {
+	case 0:
+		denied = verifErr("denied")
+	case 1:
+		denied = verifValErr{}
+		verifReach("struct-value-error")
+	case 2:
+		denied = verifCodeErr(0)
+		verifReach("zero-code-error")
+	}
 	setErr := func(next InvocationHandler) InvocationHandler {
 		return func(service reflect.Value, method reflect.Method, args Arguments) Results {
 			res := next(service, method, args)
@@ -210,8 +223,29 @@ func VerifC16_ErrorOnly() {
 	r3 := observed.Invoke([]interface{}{NewFContext("c"), "c"})
 	verifAssert(len(r3) == 1 && r3.Error() == nil, "also through an observing middleware")
 	verifAssert(h.calls == 3+1-order, "every call reached the target once")
+	// the same error returned by the TARGET: an observing middleware and the caller see it
+	hf := &verifPingHandler{outcome: func(string) (string, error) { return "", denied }}
+	var sawErr error
+	watch := func(next InvocationHandler) InvocationHandler {
+		return func(service reflect.Value, method reflect.Method, args Arguments) Results {
+			res := next(service, method, args)
+			sawErr = res.Error()
+			return res
+		}
+	}
+	r4 := NewMethod(hf, hf.Ping, "Ping", []ServiceMiddleware{watch}).Invoke([]interface{}{NewFContext("c"), "d"})
+	verifAssert(sawErr == denied, "a middleware sees the error the target returned")
+	verifAssert(len(r4) == 2 && r4.Error() == denied, "the caller sees the error the target returned")
 	verifReach("end")
 }
+
+type verifValErr struct{}
+
+func (verifValErr) Error() string { return "deadline exceeded" }
+
+type verifCodeErr int
+
+func (e verifCodeErr) Error() string { return "errno" }
 
 type verifErrT struct{ s string }
 
